@@ -506,6 +506,13 @@ func (o *Order) sans(csr *x509.CertificateRequest) ([]x509util.SubjectAlternativ
 	// sort URI list
 	csrURIs := uniqueSortedURIStrings(csr.URIs)
 
+	// the lists are compared without duplicates, their lengths can differ
+	// although the numbers of URIs are the same
+	if len(csrURIs) != len(orderURIs) {
+		return sans, NewError(ErrorBadCSRType, "CSR URIs do not match identifiers exactly: "+
+			"CSR URIs = %v, Order URIs = %v", csr.URIs, tmpOrderURIs)
+	}
+
 	for i := range csrURIs {
 		if csrURIs[i] != orderURIs[i] {
 			return sans, NewError(ErrorBadCSRType, "CSR URIs do not match identifiers exactly: "+
